@@ -60,7 +60,7 @@ struct Dumper
     PP.SuppressUnwrittenScope = false;
     PP.PrintCanonicalTypes = true;
     PP.TerseOutput = true;
-    PP.AnonymousTagLocations = false;
+    PP.AnonymousTagLocations = true;
   }
 
   int lid (Decl const *D)
@@ -115,6 +115,17 @@ struct Dumper
     if (P.isInvalid ())
       return "?";
     return base (P.getFilename ()) + ":" + std::to_string (P.getLine ());
+  }
+
+  std::string locCol (SourceLocation L)
+  {
+    if (L.isInvalid ())
+      return "?";
+    PresumedLoc P = SM.getPresumedLoc (SM.getExpansionLoc (L));
+    if (P.isInvalid ())
+      return "?";
+    return base (P.getFilename ()) + ":" + std::to_string (P.getLine ()) + ":"
+	   + std::to_string (P.getColumn ());
   }
 
   json::Value macros (SourceLocation L)
@@ -411,6 +422,7 @@ struct Dumper
       {
 	O["k"] = "lambda";
 	O["l"] = locStr (BL);
+	O["lid"] = locCol (X->getLambdaClass ()->getLocation ());
 	json::Array Caps;
 	for (auto const &C : X->captures ())
 	  {
@@ -450,9 +462,13 @@ struct Dumper
 	      {
 		O["cls"] = className (M->getParent ());
 		O["ismethod"] = true;
+		if (M->getParent ()->isLambda ())
+		  O["lam"] = locCol (M->getParent ()->getLocation ());
 	      }
 	    if (inRoots (F->getLocation ()))
 	      O["own"] = true;
+	    if (F->isImplicit () || F->isDefaulted ())
+	      O["implicit"] = true;
 	  }
 	std::vector<Expr const *> As (X->arg_begin (), X->arg_end ());
 	O["a"] = args (As);
@@ -489,6 +505,8 @@ struct Dumper
 		O["ismethod"] = true;
 		if (M->isStatic ())
 		  O["static"] = true;
+		if (M->getParent ()->isLambda ())
+		  O["lam"] = locCol (M->getParent ()->getLocation ());
 	      }
 	    if (auto *TA = F->getTemplateSpecializationArgs ())
 	      O["targs"] = targs (TA);
@@ -496,9 +514,19 @@ struct Dumper
 	      O["own"] = true;
 	    if (F->isNoReturn ())
 	      O["noreturn"] = true;
+	    if (auto *FPT = F->getType ()->getAs<FunctionProtoType> ())
+	      if (FPT->isNothrow ())
+		O["noexcept"] = true;
+	    if (F->isExternC ())
+	      O["externc"] = true;
+	    if (F->isImplicit () || F->isDefaulted ())
+	      O["implicit"] = true;
 	  }
 	else
-	  O["ce"] = expr (X->getCallee ());
+	  {
+	    O["ce"] = expr (X->getCallee ());
+	    O["cet"] = typeStr (X->getCallee ()->getType ());
+	  }
 	std::vector<Expr const *> As (X->arg_begin (), X->arg_end ());
 	O["a"] = args (As);
 	O["t"] = typeStr (X->getType ());
@@ -516,6 +544,8 @@ struct Dumper
 	O["fid"] = funcId (C);
 	if (C->isCopyOrMoveConstructor ())
 	  O["cm"] = C->isMoveConstructor () ? "move" : "copy";
+	if (C->isImplicit () || C->isDefaulted ())
+	  O["implicit"] = true;
 	if (X->isElidable ())
 	  O["elidable"] = true;
 	if (isa<CXXTemporaryObjectExpr> (X))
@@ -858,6 +888,9 @@ struct Dumper
       O["static"] = true;
     if (F->isExternC ())
       O["externc"] = true;
+    if (auto *FPT = F->getType ()->getAs<FunctionProtoType> ())
+      if (FPT->isNothrow ())
+	O["noexcept"] = true;
     if (auto *M = dyn_cast<CXXMethodDecl> (F))
       {
 	O["cls"] = className (M->getParent ());
